@@ -45,7 +45,6 @@ PROPS = {
         "assumptions": ["u64 overflow of chunk_index*chunk_size excluded", "serde_json round trip of the configuration is exercised (via=meta), not modelled"],
     },
     "C11": {
-        "claimed": False,
         "lean_props": ["ZarrsModel.Props.C11"],
         "harness": "c11",
         "rule": "Array::chunk_key on real arrays (built directly and re-opened from stored metadata): 2 encodings x 2 separators x 10 node paths "
